@@ -33,6 +33,7 @@ func checkC17(r *core.Run) {
 	releasePairing(r, prog, "C17")
 	exitTokens(r, prog, "C17", c17Scope)
 	c17Retain(r, prog)
+	c17Abandon(r, prog, []string{"pkg/bmreqs", "pkg/bondmachine", "pkg/procbuilder", "pkg/basm", "pkg/simbox", "cmd/simfinetune", "cmd/bondmachine"})
 }
 
 // entry points of "a simulation" for the retention clause
